@@ -419,6 +419,7 @@ let () =
         let dbg = try List.assoc "dbg" vf with Not_found -> "?" in
         let rel = try List.assoc "rel" vf with Not_found -> "-" in
         let dbg2 = try List.assoc "dbg2" vf with Not_found -> "-" in
+        let msan = try List.assoc "msan" vf with Not_found -> "-" in
         let issues =
           try List.concat_map handle_record (split ';' recs)
           with e -> [Guard ("driver-exception:" ^ Printexc.to_string e)] in
@@ -428,16 +429,18 @@ let () =
         let guards = List.filter_map (function Guard d -> Some d | _ -> None) issues in
         let model_txt = match model_bad with
           | [] -> "model=clean" | (d, _) :: _ -> "model-predicts=" ^ d in
-        if starts "ASAN" asan || starts "CRASH" asan || starts "CRASH" dbg || starts "ASAN" rel || starts "CRASH" rel || starts "CRASH" dbg2 then
+        if starts "MSAN" msan || starts "CRASH" msan then
+          Printf.printf "%s PROPFAIL uninitialised-memory msan=%s asan=%s dbg=%s\n" id msan asan dbg
+        else if starts "ASAN" asan || starts "CRASH" asan || starts "CRASH" dbg || starts "ASAN" rel || starts "CRASH" rel || starts "CRASH" dbg2 then
           Printf.printf "%s PROPFAIL memory-error asan=%s rel=%s dbg=%s dbg2=%s %s%s\n" id asan rel dbg dbg2 model_txt
             (match guards with [] -> "" | g :: _ -> " guard=" ^ g)
-        else if starts "NOTRUN" asan || starts "NOTRUN" dbg || starts "NOTRUN" rel || starts "NOTRUN" dbg2 then
+        else if starts "NOTRUN" asan || starts "NOTRUN" dbg || starts "NOTRUN" rel || starts "NOTRUN" dbg2 || starts "NOTRUN" msan then
           Printf.printf "%s DIFF not-run-after-repeated-hangs-of-the-implementation\n" id
-        else if starts "HANG" asan || starts "HANG" dbg || starts "HANG" rel || starts "HANG" dbg2 then
+        else if starts "HANG" asan || starts "HANG" dbg || starts "HANG" rel || starts "HANG" dbg2 || starts "HANG" msan then
           Printf.printf "%s DIFF implementation-did-not-terminate asan=%s rel=%s dbg=%s\n" id asan rel dbg
         else if invariants <> [] then
           Printf.printf "%s PROPFAIL %s\n" id (List.hd invariants)
-        else if asan = "NOASAN" || rel = "NOASAN" then
+        else if asan = "NOASAN" || rel = "NOASAN" || msan = "NOMSAN" then
           Printf.printf "%s DIFF no-sanitizer-verdict(ASan-build-missing)\n" id
         else if List.exists snd model_bad then
           Printf.printf "%s DIFF model-predicts-access-past-the-allocation-sanitizer-clean:%s\n" id
